@@ -37,7 +37,7 @@ from math import floor
 
 from oracles import lp_exact
 
-__all__ = ["solve", "is_feasible", "explicit_bounds"]
+__all__ = ["solve", "is_feasible", "explicit_bounds", "solve_int_box"]
 
 F0 = Fraction(0)
 
@@ -148,6 +148,123 @@ def solve(c, A, b, integers, cap=8, keep=40) -> dict:
     return out
 
 
+def solve_int_box(c, rows, rhs, U, cont_last=False) -> dict:
+    """Pure-integer programs over an explicit box (volume families of C04 round 3): for  min AND max  c.x  subject to
+    rows . x <= rhs,  0 <= x_j <= U_j,  x integer  (all data ints).  cont_last=True: the LAST variable is continuous
+    (0 <= x_last <= U_last real): its feasible interval is computed in Fractions instead of integers, everything else is
+    the same ('feasible' then counts the integer assignments that have a continuous completion).
+
+    Plain enumeration of the box in exact integer arithmetic, organised as a depth-first walk that carries the row slacks
+    (rhs_i - sum of the assigned part).  Two shortcuts, both about FEASIBILITY only (the objective never prunes):
+      * a partial assignment is left as soon as some row cannot be satisfied even with the most helpful values of the
+        remaining variables (slack_i < sum_{j later} min(0, a_ij) * U_j);
+      * the last variable is not looped over: its feasible integer interval [lo, hi] follows from the slacks, and a linear
+        objective takes its extremes over an interval at the end points.
+    -> {'feasible': number of feasible points, True: (value, point) | None, False: (value, point) | None}
+    The two optima are re-verified against the rows before they are handed out."""
+    n = len(c)
+    m = len(rhs)
+    if n == 0:
+        raise ValueError("no variables")
+    # helped[k][i]: the most negative contribution the variables k.. can still make to row i
+    helped = [[0] * m for _ in range(n + 1)]
+    for k in range(n - 1, -1, -1):
+        for i in range(m):
+            helped[k][i] = helped[k + 1][i] + min(0, rows[i][k]) * U[k]
+    col = [[rows[i][k] for i in range(m)] for k in range(n)]
+    best = {True: None, False: None}
+    count = 0
+    x = [0] * n
+    last = n - 1
+    cl, al, ul = c[last], col[last], U[last]
+
+    def leaf(slack, val):
+        nonlocal count
+        lo, hi = 0, ul
+        for i in range(m):
+            a = al[i]
+            s = slack[i]
+            if a > 0:
+                t = Fraction(s, a) if cont_last else s // a  # a*x <= s  <=>  x <= s/a  (integers: floor)
+                if t < hi:
+                    hi = t
+            elif a < 0:
+                t = Fraction(s, a) if cont_last else -(s // -a)  # a*x <= s  <=>  x >= s/a  (integers: ceil = -floor(s/-a))
+                if t > lo:
+                    lo = t
+            elif s < 0:
+                return
+        if lo > hi:
+            return
+        count += 1 if cont_last else hi - lo + 1
+        for v in ((lo, hi) if lo != hi else (lo,)):
+            w = val + cl * v
+            bt = best[True]
+            if bt is None or w < bt[0]:
+                x[last] = v
+                best[True] = (w, tuple(x))
+            bf = best[False]
+            if bf is None or w > bf[0]:
+                x[last] = v
+                best[False] = (w, tuple(x))
+
+    def walk(k, slack, val):
+        if k == last:
+            leaf(slack, val)
+            return
+        ak, hk = col[k], helped[k + 1]
+        for v in range(U[k] + 1):
+            s2 = [slack[i] - ak[i] * v for i in range(m)]
+            ok = True
+            for i in range(m):
+                if s2[i] < hk[i]:
+                    ok = False
+                    break
+            if ok:
+                x[k] = v
+                walk(k + 1, s2, val + c[k] * v)
+
+    walk(0, list(rhs), 0)
+    for mn in (True, False):
+        if best[mn] is not None:
+            w, p = best[mn]
+            if any(v < 0 or v > u for v, u in zip(p, U)) or any(_dot(rows[i], p) > rhs[i] for i in range(m)) \
+                    or _dot(c, p) != w or any(Fraction(v).denominator != 1 for v in (p[:-1] if cont_last else p)):
+                raise AssertionError(f"milp_exact.solve_int_box: internal witness does not check out {p}")
+    return {"feasible": count, True: best[True], False: best[False]}
+
+
+def _selftest_int_box(trials=400, seed=11):
+    import random
+    rng = random.Random(seed)
+    for _ in range(trials):
+        n, m = rng.randint(1, 5), rng.randint(0, 3)
+        rows = [[rng.randint(-4, 6) for _ in range(n)] for _ in range(m)]
+        rhs = [rng.randint(-6, 14) for _ in range(m)]
+        U = [rng.randint(0, 3) for _ in range(n)]
+        c = [rng.randint(-5, 5) for _ in range(n)]
+        r = solve_int_box(c, rows, rhs, U)
+        pts = [z for z in product(*[range(u + 1) for u in U]) if all(_dot(rows[i], z) <= rhs[i] for i in range(m))]
+        assert r["feasible"] == len(pts), (c, rows, rhs, U)
+        if pts:
+            vals = [_dot(c, z) for z in pts]
+            assert r[True][0] == min(vals) and r[False][0] == max(vals), (c, rows, rhs, U)
+        else:
+            assert r[True] is None and r[False] is None
+        # last variable continuous: against the general oracle (enumeration + exact LP on the continuous part)
+        if n >= 2 and U[-1] > 0:
+            r2 = solve_int_box(c, rows, rhs, U, cont_last=True)
+            A = [list(q) for q in rows] + [[1 if k == j else 0 for k in range(n)] for j in range(n)]
+            g = solve(c, A, list(rhs) + list(U), list(range(n - 1)))
+            for mn in (True, False):
+                d = g["dir"][mn]
+                if d["status"] == "optimal":
+                    assert r2[mn] is not None and r2[mn][0] == d["value"], (c, rows, rhs, U, mn)
+                else:
+                    assert r2[mn] is None, (c, rows, rhs, U, mn)
+    return trials
+
+
 def _selftest(trials=1500, seed=3):
     """Mixed instances against a second method: pure-integer brute force on a scaled lattice is not available for
     continuous parts, so compare (a) pure-integer instances with a direct grid loop and (b) the all-continuous
@@ -195,4 +312,4 @@ def _selftest(trials=1500, seed=3):
 
 
 if __name__ == "__main__":
-    print("milp_exact self test:", _selftest())
+    print("milp_exact self test:", _selftest(), "int box:", _selftest_int_box())
